@@ -724,3 +724,41 @@ def meaning(desc, fold=True):
 
 def desc_repr(desc):
     return repr(desc)
+
+
+# ------------------------------------------------------------------ the string-with-numbers type itself, against its documented normal form
+def check_svs_algebra(rng, n):
+    """ScaledValueString against own_parts / own_key on generated part lists (empty text, zeros of every type, blank-only text, text after
+    numbers in either case): construction, strip, lower, concatenation, scaling, rendering, equality and hashing"""
+    from recipe_grid.number_formatting import format_number
+    out = []
+    pool = ["", " ", "  ", "a", "B c", " Lead", "trail ", "\tTab", "ß", "Éclair", 0, 0.0, Fraction(0), 1, 2, 2.0, Fraction(1, 2), 0.5, 10, Fraction(7, 3)]
+    for _ in range(n):
+        parts = [rng.choice(pool) for _ in range(rng.randint(0, 5))]
+        other = [rng.choice(pool) for _ in range(rng.randint(0, 3))]
+        k = rng.choice([1, 2, 3, Fraction(1, 2), Fraction(3, 2)])
+
+        def typed(ps):
+            return tuple((type(p).__name__, p) for p in ps)
+        try:
+            s = SVS(list(parts))
+            checks = [
+                ("construct", typed(s._string), typed(own_parts(parts))),
+                ("strip+lower", typed(s.strip().lower()._string), typed(own_key(parts))),
+                ("lower", typed(s.lower()._string), typed(tuple(p.lower() if isinstance(p, str) else p for p in own_parts(parts)))),
+                ("upper", typed(s.upper()._string), typed(tuple(p.upper() if isinstance(p, str) else p for p in own_parts(parts)))),
+                ("concatenate", typed((s + SVS(list(other)))._string), typed(own_parts(list(parts) + list(other)))),
+                ("scale", typed(s.scale(k)._string), typed(tuple(p if isinstance(p, str) else p * k for p in own_parts(parts)))),
+                ("render", s.render(), "".join(p if isinstance(p, str) else format_number(p) for p in own_parts(parts))),
+                ("equality", s == SVS(list(own_parts(parts))), True),
+                ("hash", hash(s) == hash(SVS(list(own_parts(parts)))), True),
+                ("equality-of-different", s == SVS(list(parts) + ["x"]), False),
+            ]
+        except Exception as e:  # noqa
+            out.append(("string-with-numbers-raises:%s" % type(e).__name__, "parts %r" % (parts,)))
+            continue
+        for what, got, want in checks:
+            if got != want:
+                out.append(("string-with-numbers-%s-wrong" % what, "parts %r (+ %r, x %r): %r, expected %r" % (parts, other, k, got, want)))
+                break
+    return out
